@@ -7,7 +7,7 @@
     here, each proved to satisfy the hypotheses the theorems assume (so the premises are satisfiable). *)
 From Coq Require Import ZArith List Bool Lia ZifyBool Permutation Sorted.
 From Coq Require Import String.
-From SF Require Import C17.Emul.
+From SF Require Import C17.Emul C17.Emul2.
 Import ListNotations.
 Open Scope Z_scope.
 
@@ -76,6 +76,7 @@ Definition rv_eqb (a b : rv) : bool :=
   | _, _ => false
   end.
 Definition of_opt (o : option Z) : rv := match o with Some z => RInt z | None => RNull end.
+Definition of_olist (k : list Z -> rv) (o : option (list Z)) : rv := match o with Some l => k l | None => RNull end.
 Definition of_dv (o : dv) : rv := match o with Some f => RFv f | None => RNull end.
 
 (** inputs of the modelled calls *)
@@ -99,24 +100,33 @@ Inductive ein :=
 | IDateAdd (d n : Z)
 | IDateSub (d n : Z)
 | ILevenshtein (dist : option Z) (thr : Z)
-| IUnixMillis (us : Z).
+| IUnixMillis (us : Z)
+| IArrayUnionN (a b : option (list Z))
+| IOverlayN (s r : ostr) (pos len : Z)
+| IArrayAppend (l : option (list Z)) (v : Z)
+| IConcat (parts : list ostr)
+| ILeft (s : list Z) (n : Z)
+| IRight (s : list Z) (n : Z)
+| ISubstr (s : list Z) (p n : Z).
 
 Record facts := mkFacts {
   f_slice : slice_cfg; f_element_at : shift_cfg; f_try_element_at : shift_cfg; f_getitem : shift_cfg;
   f_array_min_idx : Z; f_array_max_idx : Z; f_pos : pos_cfg; f_fact : fact_cfg; f_rint : rint_cfg; f_dow : Z;
   f_overlay : overlay_cfg; f_overlap : overlap_cfg; f_union : union_cfg; f_remove : cmpop; f_nanvl : nanvl_cfg;
-  f_seq_default : seq_default; f_date_add : dshift_cfg; f_date_sub : dshift_cfg; f_lev : lev_cfg; f_unix_millis : millis_cfg }.
+  f_seq_default : seq_default; f_date_add : dshift_cfg; f_date_sub : dshift_cfg; f_lev : lev_cfg; f_unix_millis : millis_cfg;
+  f_slice_rebase : slice_rebase; f_fact_guard : option (Z * Z); f_union_guard : bool; f_overlay_glue : glue;
+  f_concat_glue : glue; f_append_guard : bool; f_left_floor : option Z; f_right_floor : option Z; f_substr_remap : option (Z * Z) }.
 
 Definition duck_of (F : facts) (i : ein) : rv :=
   match i with
-  | ISlice l s n => RList (duck_slice (f_slice F) l s n)
+  | ISlice l s n => RList (duck_slice2 (f_slice_rebase F) (f_slice F) l s n)
   | IElementAt l e => of_opt (duck_element_at (f_element_at F) l e)
   | ITryElementAt l e => of_opt (duck_element_at (f_try_element_at F) l e)
   | IGetItem l e => of_opt (duck_getItem (f_getitem F) (f_element_at F) l e)
   | IArrayMin l => of_opt (duck_array_extreme isort (f_element_at F) (f_array_min_idx F) l)
   | IArrayMax l => of_opt (duck_array_extreme isort (f_element_at F) (f_array_max_idx F) l)
   | IArrayPosition l v => of_opt (duck_array_position (f_pos F) l v)
-  | IFactorial n => of_opt (duck_factorial (f_fact F) n)
+  | IFactorial n => of_opt (duck_factorial2 (f_fact_guard F) (f_fact F) n)
   | IRint n d => of_opt (duck_rint (f_rint F) n d)
   | IDayOfWeek day => RInt (duck_dayofweek (f_dow F) day)
   | IOverlay s r pos len => RList (duck_overlay (f_overlay F) s r pos len)
@@ -129,11 +139,18 @@ Definition duck_of (F : facts) (i : ein) : rv :=
   | IDateSub d n => of_opt (dshift (f_date_add F) (f_date_sub F) 2 false d n)
   | ILevenshtein dist thr => of_opt (duck_levenshtein (f_lev F) dist thr)
   | IUnixMillis us => RInt (duck_unix_millis (f_unix_millis F) us)
+  | IArrayUnionN a b => of_olist RBag (duck_array_union2 dist_nodup (f_union_guard F) (f_union F) a b)
+  | IOverlayN s r pos len => of_olist RList (duck_overlay2 (f_overlay_glue F) (f_overlay F) s r pos len)
+  | IArrayAppend l v => of_olist RList (duck_array_append (f_append_guard F) l v)
+  | IConcat parts => of_olist RList (duck_glue (f_concat_glue F) parts)
+  | ILeft s n => RList (duck_left (f_left_floor F) s n)
+  | IRight s n => RList (duck_right (f_right_floor F) s n)
+  | ISubstr s p n => RList (duck_substr (f_substr_remap F) s p n)
   end.
 
 Definition spark_of (i : ein) : rv :=
   match i with
-  | ISlice l s n => RList (spark_slice l s n)
+  | ISlice l s n => RList (spark_slice_gen l s n)
   | IElementAt l e | ITryElementAt l e => of_opt (spark_element_at l (ieval e))
   | IGetItem l e => of_opt (spark_getItem l (ieval e))
   | IArrayMin l => match isort l with m :: _ => RInt m | [] => RNull end
@@ -152,13 +169,21 @@ Definition spark_of (i : ein) : rv :=
   | IDateSub d n => RInt (d - n)
   | ILevenshtein dist thr => of_opt (spark_levenshtein dist thr)
   | IUnixMillis us => RInt (spark_unix_millis us)
+  | IArrayUnionN a b => of_olist RBag (spark_array_union2 a b)
+  | IOverlayN s r pos len => of_olist RList (spark_overlay2 s r pos len)
+  | IArrayAppend l v => of_olist RList (spark_array_append l v)
+  | IConcat parts => of_olist RList (spark_concat parts)
+  | ILeft s n => RList (spark_left s n)
+  | IRight s n => RList (spark_right s n)
+  | ISubstr s p n => RList (spark_substr s p n)
   end.
 
 (** the domain on which the emulation's theorem, instantiated on the facts F, claims equality (false everywhere when the
     generated shape is not the one the theorem needs, e.g. slice in the unchanged tree) *)
 Definition in_dom (F : facts) (i : ein) : bool :=
   match i with
-  | ISlice l s n => slice_cfg_ok (f_slice F) && (1 <=? s) && (0 <=? n)
+  | ISlice l s n =>
+      slice_cfg_ok (f_slice F) && (0 <=? n) && ((1 <=? s) || (slice_rebase_exact (f_slice_rebase F) && negb (s =? 0)))
   | IElementAt l e =>
       negb (ieval e =? 0) && (element_at_cfg_exact (f_element_at F) || (element_at_cfg_good (f_element_at F) && simple e))
   | ITryElementAt l e =>
@@ -167,7 +192,7 @@ Definition in_dom (F : facts) (i : ein) : bool :=
   | IArrayMin l => element_at_cfg_good (f_element_at F) && (f_array_min_idx F =? 1) && negb (match l with [] => true | _ => false end)
   | IArrayMax l => element_at_cfg_good (f_element_at F) && (f_array_max_idx F =? -1) && negb (match l with [] => true | _ => false end)
   | IArrayPosition l v => pos_cfg_exact (f_pos F) || (pos_cfg_ok (f_pos F) && match l with Some _ => true | None => false end)
-  | IFactorial n => fact_cfg_ok (f_fact F) && (0 <=? n) && (n <=? 20)
+  | IFactorial n => fact_cfg_ok (f_fact F) && (fact_guard_exact (f_fact_guard F) || ((0 <=? n) && (n <=? 20)))
   | IRint n d => (0 <? d) && (rint_cfg_exact (f_rint F) || (rint_cfg_ok (f_rint F) && negb (is_tie n d)))
   | IDayOfWeek _ => f_dow F =? 1
   | IOverlay s r pos len => overlay_cfg_ok (f_overlay F) && (1 <=? pos) && (0 <=? len)
@@ -182,6 +207,18 @@ Definition in_dom (F : facts) (i : ein) : bool :=
   | IUnixMillis us =>
       (millis_cfg_exact (f_unix_millis F) && ((0 <=? us) || (us mod 1000 =? 0))) ||
       (millis_cfg_ok (f_unix_millis F) && (us mod 1000000 =? 0))
+  | IArrayUnionN a b =>
+      union_cfg_ok (f_union F) && (f_union_guard F || match a, b with Some _, Some _ => true | _, _ => false end)
+  | IOverlayN s r pos len =>
+      overlay_cfg_ok (f_overlay F) && (1 <=? pos) && (0 <=? len) &&
+      (match f_overlay_glue F with GluePipes => true | GlueConcat => false end || match s, r with Some _, Some _ => true | _, _ => false end)
+  | IArrayAppend l v => f_append_guard F || match l with Some _ => true | None => false end
+  | IConcat parts =>
+      match f_concat_glue F with GluePipes => true | GlueConcat => false end ||
+      forallb (fun p => match p with Some _ => true | None => false end) parts
+  | ILeft s n => floor_exact (f_left_floor F) || (0 <=? n)
+  | IRight s n => floor_exact (f_right_floor F) || (0 <=? n)
+  | ISubstr s p n => (0 <=? n) && ((1 <=? p) || (remap_exact (f_substr_remap F) && (0 <=? p)))
   end.
 
 Open Scope string_scope.
